@@ -38,16 +38,16 @@ CHECKS.update({
             "and at every later point of the history (cache-coherence invariant + symbolic execution of the cache-less Decrypt); AND inside one long-lived process with key caches of any policy and capacity: after any "
             "history of new factories/sessions, encrypts and decrypts under any fault plans, clock changes and revocations, a fault-free Decrypt in any live session of the same partition id returns exactly the payload "
             "(total correctness: liveness invariant on reference counts with a ghost map of holds, Envelope/Live.v 2900 lines); with Session.Close in the history too for factories whose sessions own no key cache "
-            "(shared IK cache or IK caching off, Envelope/LiveClose.v), and for the DEFAULT policy where every session owns its intermediate-key cache and Session.Close destroys it, as long as no operation addresses a session "
-            "after its Close: the decrypt in any OPEN session of the partition returns the payload (liveness invariant relative to the set of destroyed caches, Envelope/LiveD.v + LiveCloseD.v); and an UNFAULTED Encrypt after any such history cannot fail - through cache hits, stale or invalid entries, metastore loads, key creation and the "
-            "duplicate fallback (Envelope/Total.v 1000 lines; Envelope/TotalD.v: the same on open sessions after histories that close sessions owning their cache).",
-            "Not in the theorems: histories that close factories or use the session cache, operations on a session after its Close, region-suffixed ids, stored rows with creation stamp 0 (side condition nz_store), concurrency (C08/C16 models); "
+            "(shared IK cache or IK caching off, Envelope/LiveClose.v), and for EVERY policy (per-session / shared / no key caches, with or without the session cache), where Session.Close destroys the cache the session owns (a cached session's once evicted and released by its last holder) and SessionFactory.Close destroys the factory's caches, as long as no operation "
+            "addresses a closed session or a session of a closed factory: the decrypt in any OPEN session of the partition returns the payload (liveness invariant relative to the set of destroyed caches, Envelope/LiveD.v + LiveCloseD.v); and an UNFAULTED Encrypt after any such history cannot fail - through cache hits, stale or invalid entries, metastore loads, key creation and the "
+            "duplicate fallback (Envelope/Total.v 1000 lines; Envelope/TotalD.v: the same on open sessions after histories that close sessions and factories).",
+            "Not in the theorems: operations on a session whose underlying encryption was closed or whose factory was closed, region-suffixed ids, stored rows with creation stamp 0 (side condition nz_store), concurrency (C08/C16 models); "
             "these are decided by the correspondence and the monitors.", "6/C01"),
  "C02": env("Fault plans (err / false duplicate / error-after-write on every metastore, KMS, AEAD, allocator call, singles and pairs) on cold/warm/rotating states: a returned record's IK row and SK row must be in the "
             "authoritative store at return and a fresh process must decrypt it; an unfaulted encrypt must succeed. PROVED over all histories (any fault plans, policies, evictions, restarts, revocations; one "
             "service/product, default key ids): every record ever returned names a stored intermediate key row whose parent system key row is stored, and is sealed so that those rows and the KMS open it "
             "(cache-coherence invariant through key_cache.go / envelope.go / session.go / session_cache.go, 2000 lines of Coq); the store only grows and only holds well-formed rows.",
-            "The fresh-process clause is a theorem too (C02_fresh_process_decrypts), and so is 'once the faults stop the next operation succeeds' for Encrypt (C02_once_the_faults_stop_encrypt_succeeds, histories without closes / session cache; ..._with_session_closes: default policy, closes of sessions that own their key cache, open sessions). "
+            "The fresh-process clause is a theorem too (C02_fresh_process_decrypts), and so is 'once the faults stop the next operation succeeds' for Encrypt (C02_once_the_faults_stop_encrypt_succeeds, histories without closes / session cache; ..._with_closes: any key-cache policy, session and factory closes in the history, open sessions of open factories). "
             "Not in the theorems: region-suffixed ids, several services in one metastore.", "6/C02"),
  "C03": env("AEAD/KMS/secret-factory call traces must equal the model's; payload sealed only under a data key generated in the same operation, data key used once, real (key, nonce) pairs unique, plaintext scan of rows/records/log lines/KMS traffic.",
             "Nonce/key freshness of crypto/rand is an assumption; the theorem is that the code asks for a fresh key and nonce every time.", "6/C03"),
@@ -130,7 +130,7 @@ CHECKS["C18"] = dict(
 CHECKS["C08"] = dict(
   text="Coq theorem (counting invariant, induction over schedules): for ANY number of goroutines, ANY schedule and ANY set of entries evicted at each load (every policy, capacity >= 1) no goroutine ever uses a "
        "destroyed key and reference counts are exact (cache reference + holders); the unlock-then-count order of the tree before fix 8f60ea4 is refuted by a 15-step schedule. Sequential half on the envelope "
-       "model (Envelope/Live.v): through any history of factories, sessions, encrypts/decrypts with any faults, evictions, refreshes and reloads every key sitting in a key cache is open; with closes of sessions that own their cache in the history (Envelope/LiveCloseD.v) every key an OPEN session can reach "
+       "model (Envelope/Live.v): through any history of factories, sessions, encrypts/decrypts with any faults, evictions, refreshes and reloads every key sitting in a key cache is open; with session and factory closes in the history (Envelope/LiveCloseD.v) every key an OPEN session of an open factory can reach "
        "through its caches is open; the eviction callback (which releases the cache's reference) is checked to run at most once per entry on the real generic cache. Tie: seeded random and PCT-priority "
        "schedules of 2-4 real goroutines against one factory with capacity-1/2 caches under a cooperative controller whose yield points are inserted by the overlay before every lock acquisition, "
        "reference-count update and condition wait; monitors: every operation on an open session succeeds with the right bytes, no use after destroy, no double release, no deadlock.",
